@@ -1723,6 +1723,9 @@ class ReactionSystem:
         preconverted_material = values if original is not None else values.copy()
         if config: material._imol.reset_chemicals(*config) # Only a copy is needed from here on
         reactions = self.reactions
+        basis = self._basis
+        for i in reactions:
+            if i._basis != basis: raise RuntimeError('not all reactions have the same basis')
         for i, rxn in enumerate(reactions):
             if i == index: break
             rxn(preconverted_material)
